@@ -281,22 +281,31 @@ def run(ctx):
     ctx.rule("R13.3", "sign normalisation is applied by multiplication / negation of the value where it is defined")
     n_sign = 0
     for s in sites:
-        if s.idiom != "I2a" or s.kind != "ifexp":
+        stmt_form = None
+        if s.kind == "if" and isinstance(s.node, ast.If) and len(s.node.body) == 1 and len(s.node.orelse) == 1 \
+                and all(isinstance(x, ast.Assign) and len(x.targets) == 1 and isinstance(x.targets[0], ast.Name) for x in (s.node.body[0], s.node.orelse[0])) \
+                and s.node.body[0].targets[0].id == s.node.orelse[0].targets[0].id:
+            # `if d == MINIMIZE: sign = 1 else: sign = -1` - the statement spelling of the sign ternary (the loader writes
+            # `sign = 1 if .. else -1` this way)
+            stmt_form = (s.node.body[0].value, s.node.orelse[0].value, s.node.body[0].targets[0].id)
+        if not ((s.idiom == "I2a" and s.kind == "ifexp") or stmt_form is not None):
             continue
-        n_sign += 1
         f = s.func
         pm = parent_map(f.node)
         # the ternary is either itself `v if .. else -v` (value-carrying) or a sign constant that
         # must be multiplied with something
-        a, b = s.node.body, s.node.orelse
+        a, b = (s.node.body, s.node.orelse) if stmt_form is None else stmt_form[:2]
         const_sign = all(isinstance(x, ast.Constant) or (isinstance(x, ast.UnaryOp) and isinstance(x.operand, ast.Constant)) for x in (a, b))
+        if stmt_form is not None and not const_sign:
+            continue
+        n_sign += 1
         if not const_sign:
             ctx.ok("R13.3", f.short, f"value-carrying:{norm(s.node)[:40]}", how="ternary yields the normalised value itself")
             continue
         used = False
         # climb: inside a comprehension/array that is an operand of * or *=, or assigned to a name used in *
         cur = s.node
-        target_names = set()
+        target_names = set() if stmt_form is None else {stmt_form[2]}
         for anc in ancestors(s.node, pm):
             if isinstance(anc, ast.BinOp) and isinstance(anc.op, ast.Mult):
                 used = True
@@ -360,6 +369,12 @@ def run(ctx):
                     derived |= {t.id for t in a.targets if isinstance(t, ast.Name)}
                 if isinstance(a, ast.stmt):
                     break
+            if isinstance(sg.node, ast.If):
+                # statement spelling: the sign / normalised value is what the arms assign
+                for arm in (sg.node.body, sg.node.orelse):
+                    for st_ in arm:
+                        if isinstance(st_, ast.Assign):
+                            derived |= {t.id for t in st_.targets if isinstance(t, ast.Name)}
         changed = True
         while changed:
             changed = False
